@@ -228,6 +228,13 @@ func (s *storage) walkPack(verbose bool, packID int,
 				log.Printf("found %s at %d", ref, pos)
 			}
 		}
+		// A record whose body would run past the end of the file was
+		// torn by a crash while it was being appended: it is not a blob.
+		if fi, err := fh.Stat(); err != nil {
+			return errAt("", "cannot stat: "+err.Error())
+		} else if pos+1+int64(m)+int64(size) > fi.Size() {
+			break
+		}
 		if err = walker(packID, ref, pos+1+int64(m), size); err != nil {
 			return err
 		}
